@@ -119,7 +119,7 @@ fn permutations(inner: &[Ev], must_start_with_pre: bool) -> Vec<Vec<Ev>> {
 
 pub fn run() {
 	let cx = ctx();
-	cx.note("rule", json!("irregular-but-tolerated inputs: every permutation of a frame's pre/post/item events that keeps each character's pre before its post (before 2.2: starting with a pre), x junk after Game End inside the raw element (1, 2, size(Game End)+1 bytes that are not a second Game End), x unknown events (inside the frame, before Game End, after Game End, between two Message Splitter blocks of the Gecko list), x Game End absent or doubled, x metadata absent - all combinations, in all three framing regimes, on three base histories (follower absent; leader absent + whole Ice-Climbers pair absent; Gecko list filling its last block exactly); plus the canonical history space of C04 and Gecko lists of 512/1024/1536/700/66000 bytes. For each input the reader accepts: the written .slp declares exactly the measured length of its raw element (measured from the file length and the harness's own encoding of the metadata), reads again, the re-read game equals the first on start, end, metadata, gecko codes and all frame data, and writing it again reproduces the written file. Every case is non-trivial (carries at least a non-canonical order or another irregularity, except the identity permutation)"));
+	cx.note("rule", json!("irregular-but-tolerated inputs: every permutation of a frame's pre/post/item events that keeps each character's pre before its post (before 2.2: starting with a pre), x junk after Game End inside the raw element (1, 2, size(Game End)+1 bytes that are not a second Game End), x unknown events (inside the frame, before Game End, after Game End, between two Message Splitter blocks of the Gecko list, a whole split unknown message ahead of the Gecko list), x Game End absent or doubled, x metadata absent - all combinations, in all three framing regimes, on three base histories (follower absent; leader absent + whole Ice-Climbers pair absent; Gecko list filling its last block exactly); plus the canonical history space of C04 and Gecko lists of 512/1024/1536/700/66000 bytes. For each input the reader accepts: the written .slp declares exactly the measured length of its raw element (measured from the file length and the harness's own encoding of the metadata), reads again, the re-read game equals the first on start, end, metadata, gecko codes and all frame data, and writing it again reproduces the written file. Every case is non-trivial (carries at least a non-canonical order or another irregularity, except the identity permutation)"));
 	cx.note("exhaustive", json!(true));
 	cx.note("assumptions", json!(["inputs the reader rejects are outside the property's quantifier; their number is reported as not_accepted"]));
 	let versions: Vec<(u8, u8)> = if cx.quick() { vec![(0, 1), (2, 0), (2, 2), (3, 0), (3, 16)] } else { spec::v_rep() };
@@ -175,7 +175,7 @@ pub fn run() {
 					d.events[first + k] = e.clone();
 				}
 				for junk in 0..4usize {
-					for unk in 0..5usize {
+					for unk in 0..6usize {
 						for ends in [1u8, 0, 2] {
 							for meta in [true, false] {
 								if cx.quick() && (junk > 0) as usize + (unk > 0) as usize + (ends == 0) as usize + (!meta) as usize > 2 {
@@ -201,6 +201,19 @@ pub fn run() {
 									}
 									let n = [0, 1, 2, end_sz + 1][junk];
 									d2.raw_junk = (0..n).map(|k| if k == 0 { 0x3F } else { 0x39 }).collect();
+								}
+								if unk == 5 {
+									// a whole unknown message cut into two splitter blocks, ahead of everything else
+									if junk > 0 {
+										continue;
+									}
+									if !meta {
+										d2.metadata = None;
+									}
+									let bytes = crate::checks::c08::with_wrapped_unknown(&d2, 0x3E, 600, 1);
+									let class: &'static str = "split-unknown-event";
+									jobs.push((bytes, format!("v{}.{} variant {} row {} split unknown message first, ends={} meta={}", v.0, v.1, variant, target_row, ends, meta), class));
+									continue;
 								}
 								if unk > 0 {
 									// unk 4: between two Message Splitter blocks of the Gecko list (needs two blocks)
